@@ -57,6 +57,7 @@ deriving Repr, Inhabited
     accrual abstraction (`CLAccrual`); no handler reads it. -/
 inductive SwapEv where
   | fee (f : Int)
+  | step (next amtIn amtOut : Int)      -- raw sqrt price after the step and the raw amounts of the step (fee excluded)
   | cross (up : Bool) (t : Int)
   | move (t : Int)
 deriving Repr, Inhabited
@@ -448,6 +449,7 @@ def swapLoop (exactIn bfq upd : Bool) (lim fee : Dec) (tp : TickParams) (accVal 
       let (amtIn, amtOut) := if exactIn then (a, b) else (b, a)
       if next == start && !(amtIn.isZero && amtOut.isZero) then Res.err "no-sqrt-price-after-swap"
       let ss1 := if upd then { updateFeeGrowth ss feeCharge with trace := ss.trace ++ [.fee feeCharge.raw] } else ss
+      let ss1 := { ss1 with trace := ss1.trace ++ [SwapEv.step next.raw amtIn.raw amtOut.raw] }
       let ss2 := if exactIn then
           { ss1 with sqrtP := next, remaining := Dec.sub ss1.remaining (Dec.add amtIn feeCharge), calculated := Dec.add ss1.calculated amtOut }
         else
